@@ -96,24 +96,37 @@ theorem C15_front_unmodelled_def (msg : Bytes) (w : String) :
     (Front.readSig msg = .error w ↔ Codec.splitSig msg = .error w ∧ ∃ w', Wire.splitSig msg = .unmodelled w') ∧
     (Front.readDetached msg = .error w ↔
       Codec.splitDetached msg = .error w ∧ ∃ w', Wire.splitDetached msg = .unmodelled w') := by
-  refine ⟨orWire_error_iff, orWire_error_iff, orWire_error_iff, ?_⟩
-  unfold Front.readDetached
-  rw [orWire_error_iff, codecDetached_error]
+  refine ⟨?_, ?_, ?_, ?_⟩
+  · unfold Front.readEnc; rw [orWire_error_iff, settle_error]
+  · unfold Front.readSigncrypt; rw [orWire_error_iff, settle_error]
+  · unfold Front.readSig; rw [orWire_error_iff, settle_error]
+  · unfold Front.readDetached; rw [orWire_error_iff, codecDetached_error]
 
-/-- where go-codec's typed reader answers, the front end is that reader (all four front ends) -/
+/-- **Where go-codec's typed reader answers, the front end is that reader** (all
+    four front ends): the same header read, the same packets; the tail is the
+    typed reader's, except that behind a final packet a truncated object the typed
+    decoder refuses counts as the clean end `assertEndOfStream`'s generic read
+    reports (`Front.settle`) — in particular a stream `Codec` ends cleanly is
+    handed over unchanged. -/
 theorem C15_front_is_codec_where_modelled (msg : Bytes) :
-    (∀ x, Codec.splitEnc msg = .ok x → Front.readEnc msg = .ok x) ∧
-    (∀ x, Codec.splitSigncrypt msg = .ok x → Front.readSigncrypt msg = .ok x) ∧
-    (∀ x, Codec.splitSig msg = .ok x → Front.readSig msg = .ok x) ∧
+    (∀ hr ps, Codec.splitEnc msg = .ok (hr, ps) →
+      ∃ ps', Front.readEnc msg = .ok (hr, ps') ∧ ps'.items = ps.items ∧ (ps'.tail = ps.tail ∨ ps'.tail = .eof)) ∧
+    (∀ hr ps, Codec.splitSigncrypt msg = .ok (hr, ps) →
+      ∃ ps', Front.readSigncrypt msg = .ok (hr, ps') ∧ ps'.items = ps.items ∧ (ps'.tail = ps.tail ∨ ps'.tail = .eof)) ∧
+    (∀ hr ps, Codec.splitSig msg = .ok (hr, ps) →
+      ∃ ps', Front.readSig msg = .ok (hr, ps') ∧ ps'.items = ps.items ∧ (ps'.tail = ps.tail ∨ ps'.tail = .eof)) ∧
     (∀ hr d, Codec.splitDetached msg = .ok (hr, d) → Front.readDetached msg = .ok (hr, Front.detSig d)) :=
-  ⟨fun _ h => orWire_of_codec h, fun _ h => orWire_of_codec h, fun _ h => orWire_of_codec h,
+  ⟨fun _ _ h => readEnc_of_codec h, fun _ _ h => readSigncrypt_of_codec h, fun _ _ h => readSig_of_codec h,
    fun _ _ h => orWire_of_codec (codecDetached_of_ok h)⟩
 
 /-- the spec-shaped reader is consulted only where the typed reader gives up -/
-theorem C15_front_is_wire_only_where_codec_unmodelled (msg : Bytes) (x : HeaderRead EncHeader × PStream EncBlock)
-    (h : Front.readEnc msg = .ok x) :
-    Codec.splitEnc msg = .ok x ∨ ∃ w, Codec.splitEnc msg = .error w ∧ Wire.splitEnc msg = .ok x :=
-  orWire_ok h
+theorem C15_front_is_wire_only_where_codec_unmodelled (msg : Bytes) (hr : HeaderRead EncHeader) (ps : PStream EncBlock)
+    (h : Front.readEnc msg = .ok (hr, ps)) :
+    (∃ ps0, Codec.splitEnc msg = .ok (hr, ps0) ∧ ps.items = ps0.items ∧ (ps.tail = ps0.tail ∨ ps.tail = .eof)) ∨
+    ∃ w, Codec.splitEnc msg = .error w ∧ Wire.splitEnc msg = .ok (hr, ps) := by
+  rcases orWire_ok h with hc | ⟨w, hc, hw⟩
+  · exact Or.inl (settle_ok hc)
+  · exact Or.inr ⟨w, settle_error.mp hc, hw⟩
 
 /-- **The packet loop never exhausts its fuel — partial.**  `Codec.split*` read
     the packets with `Codec.blocks dec (rest.length + 1) rest`.  If every
@@ -152,7 +165,7 @@ theorem C15_front_reads_sealed_enc (P : Prims) (hS : WireSizes P) (bs : Nat) (hb
     (hs : Encrypt.sealPackets P bs v sender rs eph pk pt = .ok (h, hb, blks))
     (he : Encrypt.encodeBlocks v blks = .ok body) (hhb : hb.length < 2 ^ 32) :
     Front.readEnc (headerPacket hb ++ body) = .ok (.ok hb h, ⟨(blks.map (encAsRead v)).map some, .eof⟩) :=
-  orWire_of_codec (CodecP.bridge_seal_enc P hS bs hbs hbs32 v sender rs eph pk pt hpk hpub h hb blks body hs he hhb).2
+  readEnc_of_codec_eof (CodecP.bridge_seal_enc P hS bs hbs hbs32 v sender rs eph pk pt hpk hpub h hb blks body hs he hhb).2
 
 /-- … signcryption -/
 theorem C15_front_reads_sealed_signcrypt (P : Prims) (hS : WireSizes P) (bs : Nat) (hbs : 0 < bs)
@@ -162,7 +175,7 @@ theorem C15_front_reads_sealed_signcrypt (P : Prims) (hS : WireSizes P) (bs : Na
     (h : EncHeader) (hb : Bytes) (blks : List SigncryptBlock)
     (hs : Signcrypt.sealPackets P bs sender rs eph pk pt = .ok (h, hb, blks)) (hhb : hb.length < 2 ^ 32) :
     Front.readSigncrypt (headerPacket hb ++ Signcrypt.encodeBlocks blks) = .ok (.ok hb h, ⟨blks.map some, .eof⟩) :=
-  orWire_of_codec (CodecP.bridge_seal_signcrypt P hS bs hbs hbs32 sender rs eph pk pt hpk hid h hb blks hs hhb).2
+  readSigncrypt_of_codec_eof (CodecP.bridge_seal_signcrypt P hS bs hbs hbs32 sender rs eph pk pt hpk hid h hb blks hs hhb).2
 
 /-- … attached signatures -/
 theorem C15_front_reads_sealed_sig (P : Prims) (hS : WireSizes P) (bs : Nat) (hbs : 0 < bs) (hbs32 : bs < 2 ^ 32)
@@ -171,7 +184,7 @@ theorem C15_front_reads_sealed_sig (P : Prims) (hS : WireSizes P) (bs : Nat) (hb
     (hs : Sign.attachedPackets P bs v signer nonce msg = .ok (h, hb, blks))
     (he : Sign.encodeBlocks v blks = .ok body) :
     Front.readSig (headerPacket hb ++ body) = .ok (.ok hb h, ⟨(blks.map (sigAsRead v)).map some, .eof⟩) :=
-  orWire_of_codec (CodecP.bridge_seal_sig P hS bs hbs hbs32 v signer nonce msg hn h hb blks body hs he).2
+  readSig_of_codec_eof (CodecP.bridge_seal_sig P hS bs hbs hbs32 v signer nonce msg hn h hb blks body hs he).2
 
 /-- … detached signatures -/
 theorem C15_front_reads_sealed_detached (P : Prims) (hS : WireSizes P) (v : Version) (signer nonce msg out : Bytes)
